@@ -23,6 +23,8 @@ def run(ctx):
     asm_sm3.run_family(ctx, PROP)
     from props import asm_cbcsc
     asm_cbcsc.run_family(ctx, PROP)
+    from props import asm_ccm
+    asm_ccm.run_family(ctx, PROP)
     asm_hmac.run_family(ctx, PROP)      # descriptor write set / status of the HMAC managers (machine code)
     ctx.samples.append('for ALL int e: imb_get_strerror(e) != NULL; IMB_ERR_MIN<e<IMB_ERR_MAX => a library message, listed once in imb_errno_types[]')
     ctx.samples.append('any ring state, any stale errno: SUBMIT_JOB leaves errno 0 on success / the validator code on rejection; every caller-owned field of every ring job unchanged')
